@@ -46,3 +46,41 @@ package geojson
 //@   trusted placeholder until the collection contracts prove this method
 //@   requires g != nil
 //@   ensures result == g && SpInv(result)
+
+// EmptySpatial: the Spatial of nothing -- within nothing, intersects nothing, at distance 0 from everything
+//@ func EmptySpatial.WithinRect
+//@   props C05 C09
+//@   ensures !result
+//@ func EmptySpatial.WithinPoint
+//@   props C05 C09
+//@   ensures !result
+//@ func EmptySpatial.WithinLine
+//@   props C05 C09
+//@   ensures !result
+//@ func EmptySpatial.WithinPoly
+//@   props C05 C09
+//@   ensures !result
+//@ func EmptySpatial.IntersectsRect
+//@   props C05 C09
+//@   ensures !result
+//@ func EmptySpatial.IntersectsPoint
+//@   props C05 C09
+//@   ensures !result
+//@ func EmptySpatial.IntersectsLine
+//@   props C05 C09
+//@   ensures !result
+//@ func EmptySpatial.IntersectsPoly
+//@   props C05 C09
+//@   ensures !result
+//@ func EmptySpatial.DistanceRect
+//@   props C05 C09
+//@   ensures result == 0
+//@ func EmptySpatial.DistancePoint
+//@   props C05 C09
+//@   ensures result == 0
+//@ func EmptySpatial.DistanceLine
+//@   props C05 C09
+//@   ensures result == 0
+//@ func EmptySpatial.DistancePoly
+//@   props C05 C09
+//@   ensures result == 0
